@@ -286,6 +286,7 @@ fn variants(c: &CBOR) -> Vec<(String, CBOR)> {
                             let fields: Vec<(&str, CBOR)> = if t.value() == 40002 {
                                 let CBORCase::ByteString(aad) = v[3].as_case() else { return out };
                                 let aad: &[u8] = aad.as_ref();
+                                if aad.len() < 4 { return out; }
                                 vec![("digest field without its tag bytes", CBOR::to_byte_string(&aad[3..])), ("digest field truncated by one byte", CBOR::to_byte_string(&aad[..aad.len() - 1])),
                                      ("digest field replaced by arbitrary bytes", CBOR::to_byte_string(b"xyz")), ("digest field holding other CBOR", CBOR::to_byte_string(CBOR::from("text").to_cbor_data()))]
                             } else {
@@ -301,6 +302,7 @@ fn variants(c: &CBOR) -> Vec<(String, CBOR)> {
         }
         CBORCase::ByteString(b) => {
             let b: &[u8] = b.as_ref();
+            if b.len() != 32 { return out; }
             out.push(("digest of 31 bytes".into(), CBOR::to_byte_string(&b[..31])));
             let mut x = b.to_vec(); x.push(0); out.push(("digest of 33 bytes".into(), CBOR::to_byte_string(x)));
             out.push(("empty digest".into(), CBOR::to_byte_string(Vec::<u8>::new())));
